@@ -131,7 +131,13 @@ def run(ctx):
             # one positively wrong shape we can name: the operands compared in the other order
             swapped = ("try", ("call", "compare", ("index", ("args",), ("lit", "1")), ("index", ("args",), ("lit", "0"))))
             ok, d = (False if S.contains(t, swapped) else None), S.show(t)
-            if S.contains_call(t, "equals") or S.contains_head(t, "bin") and any(x in S.show(t) for x in (" Eq ", " Ne ")):
+            def eq_on_operands(x):
+                if isinstance(x, tuple):
+                    if len(x) == 4 and x[0] == "bin" and x[1] in ("Eq", "Ne") and (S.contains(x[2], ("args",)) or S.contains(x[3], ("args",))):
+                        return True
+                    return any(eq_on_operands(y) for y in x)
+                return False
+            if S.contains_call(t, "equals") or eq_on_operands(t):
                 # the unchecked comparisons derive from compare() alone; an extra equality test answers `true` for operands that are
                 # equal but not ordered (null, records, functions) - or, with the derived ==, false for equal values in different heap cells
                 ok, d = False, "the arm also tests equality (%s): ugte/ulte must answer from compare() only" % S.show(t)[:200]
@@ -148,6 +154,14 @@ def run(ctx):
                         other = True
                 ok = true_sets == UCANON[v] and rest_false and not other
                 d = "true on %s, wildcard -> false: %s" % (sorted(true_sets), rest_false)
+            if ok is None:
+                # another way of writing it (merged arms, a predicate method, `is_some_and`): specialise the arm for this variant and for each
+                # possible answer of compare() and read off when it says true (lib/pe - constants folded, nothing is run)
+                got = pe_unchecked(core, a, v, argsname)
+                if got is not None:
+                    true_set, none_val = got
+                    ok = (true_set == UCANON[v]) and (none_val is False)
+                    d = "specialised for %s: true on %s, not comparable -> %s" % (v, sorted(true_set), none_val)
             ctx.inst("C12.R1", "%s#builtin" % v, ok, d, H.loc(a["body"]))
             ctx.inst("C12.R5", v, ok, "incomparable / other orderings fall to `_ => Ok(Bool(false))`; operands args[0], args[1] in order: %s" % ok, H.loc(a["body"]))
 
@@ -382,3 +396,47 @@ def list_compare_rule(ctx, rid, core):
     swapped = ("value", ("call", "partial_cmp", ("call", "len", lr), ("call", "len", ll)))
     okf = True if fin == want else (False if fin == swapped else None)
     ctx.inst(rid, "compare#List#length-tie-break", okf, "final value %s" % (S.show(fin[1]) if fin and len(fin) > 1 else None), H.loc(body))
+
+
+def pe_unchecked(core, arm, variant, argsname):
+    """({orderings on which the arm answers true}, answer when compare() says None) for an unchecked-comparison arm of any shape whose
+    first statement binds the result of `args[0].compare(&args[1], ..)?`; None when it cannot be specialised"""
+    from lib import pe as PE_
+    blk = H.strip(arm["body"])
+    if H.kind(blk) != "Block":
+        return None
+    bind, rest_from = None, None
+    for i, st in enumerate(blk["stmts"]):
+        if st["k"] == "Let" and H.kind(st["pat"]) == "Bind" and st.get("init") is not None:
+            calls = [x for x in H.walk(st["init"]) if H.kind(x) == "MethodCall" and x["name"] == "compare"]
+            if len(calls) == 1:
+                c = calls[0]
+                r, a0 = H.strip(c["recv"]), H.strip(c["args"][0]) if c.get("args") else None
+
+                def idx_of(x):
+                    x = H.strip(x)
+                    if H.kind(x) == "Index" and H.path_local(x["e"]) == argsname and H.lit(x["i"]):
+                        return H.lit(x["i"])["v"]
+                    return None
+                if idx_of(r) == "0" and a0 is not None and idx_of(a0) == "1":
+                    bind, rest_from = st["pat"]["name"], i + 1
+                    break
+                return None
+    if bind is None:
+        return None
+    rest = dict(blk, stmts=blk["stmts"][rest_from:])
+    ev = PE_.PE(core, "blots_core::functions::BuiltInFunction::")
+    true_set, none_val = set(), None
+    for o in ("Less", "Equal", "Greater", None):
+        val = ("some", ("variant", o, ())) if o else ("none",)
+        t = ev.ev(rest, {bind: val, "self": ("variant", variant, ())})
+        # Ok(Value::Bool(b))
+        while t[0] == "variant" and t[1] in ("Ok", "Bool") and len(t[2]) == 1:
+            t = t[2][0]
+        if t[0] != "bool":
+            return None
+        if o is None:
+            none_val = t[1]
+        elif t[1]:
+            true_set.add(o)
+    return true_set, none_val
